@@ -502,6 +502,7 @@ def _check_filters(run, world, mod, F, cfg, ys, fn, setter):
                        where(mod, y.node))
     # reassembly: int.from_bytes((lo, md, hi), "little") with lo<-L.value ...
     asm = None
+    asm_node = None
     for n in cfg.reachable:
         if n.kind == "stmt" and isinstance(n.ast, ast.Return) and \
                 n.ast.value is not None:
@@ -517,21 +518,35 @@ def _check_filters(run, world, mod, F, cfg, ys, fn, setter):
                         names = [unparse(x) for x in c.args[0].elts]
                         asm = (n, names if order.value == "little"
                                else names[::-1])
+                        asm_node = c
             if asm is None:
                 # the same number written with shifts: lo | md << 8 | hi << 16
                 pos = _byte_positions(n.ast.value)
+                pnode = n.ast.value
                 if pos is None:
                     for c in _walk_no_nested(n.ast.value):
                         if isinstance(c, ast.BinOp):
                             pos = _byte_positions(c)
                             if pos is not None and len(pos) == 3:
+                                pnode = c
                                 break
                             pos = None
                 if pos is not None and sorted(pos) == [0, 1, 2]:
                     asm = (n, [pos[0], pos[1], pos[2]])
+                    asm_node = pnode
     run.ob("R-DTRSYM", F + "#reassembly", asm is not None and len(
         asm[1]) == 3, "no int.from_bytes((lo, md, hi), order) reassembly "
         "found in a return", where(mod, fn))
+    if asm is not None and len(asm[1]) == 3:
+        # what is handed back is the three bytes and nothing else: between
+        # the reassembled number and the return there is only the conversion
+        # to the filter type (a mask of all 24 bits changes nothing)
+        why = _between_asm_and_return(asm[0].ast.value, asm_node)
+        run.ob("R-DTRSYM", F + "#reassembled-value-returned-whole",
+               why is None, "the reassembled filter bytes are changed "
+               "before they are returned (%s): a set bit the device "
+               "reported is not in the value the caller gets" % why,
+               where(mod, asm[0]))
     if asm is not None and len(asm[1]) == 3:
         # each name's in-function re-definition comes from the matching query
         src_of = {}
@@ -1624,3 +1639,38 @@ def _check_bad_rsp(run, world, mod):
                "check_bad_rsp no longer classifies the %s case as bad "
                "(markers tested %s, NumericResponse produces %s)"
                % (k, sorted(markers), sorted(produced)), where(mod, fn))
+
+
+def _between_asm_and_return(root, node):
+    """None when `root` is `node` wrapped only in single-argument calls
+    (type conversions) and all-ones masks; else a description of the first
+    other operation on the way."""
+    if node is None:
+        return "reassembly not located"
+    parent = {}
+    for p_ in ast.walk(root):
+        for ch in ast.iter_child_nodes(p_):
+            parent[id(ch)] = p_
+    cur = node
+    while cur is not root:
+        up = parent.get(id(cur))
+        if up is None:
+            return "reassembly not under the return value"
+        if isinstance(up, ast.Call) and len(up.args) == 1 and \
+                up.args[0] is cur and not up.keywords and (isinstance(
+                    up.func, (ast.Name, ast.Attribute)) or (
+                        isinstance(up.func, ast.Call) and unparse(
+                            up.func.func) == "type")):
+            cur = up
+            continue
+        if isinstance(up, ast.BinOp) and isinstance(up.op, ast.BitAnd):
+            other = up.right if up.left is cur else up.left
+            try:
+                v = ast.literal_eval(other)
+            except (ValueError, SyntaxError, TypeError):
+                v = None
+            if isinstance(v, int) and v & 0xFFFFFF == 0xFFFFFF:
+                cur = up
+                continue
+        return unparse(up, 70)
+    return None
